@@ -150,6 +150,7 @@ CHECKS["C05"] = dict(
     units=[dict(pkg="app", test="TestVerifC05App", shards_quick=12, shards_thorough=16, budget_quick=200, budget_thorough=1500),
            dict(pkg="app", test="TestVerifC05AppLate", shards_quick=12, shards_thorough=16, budget_quick=200, budget_thorough=1500),
            dict(pkg="app", test="TestVerifC05AppShortRepeat", shards_quick=8, shards_thorough=16, budget_quick=100, budget_thorough=900),
+           dict(pkg="app", test="TestVerifC05AppOutage", shards_quick=8, shards_thorough=16, budget_quick=100, budget_thorough=900),
            dict(pkg="app", test="TestVerifC05AppTimings", shards_quick=8, shards_thorough=16, budget_quick=150, budget_thorough=900),
            dict(pkg="app", test="TestVerifC05AppFlap", shards_quick=8, shards_thorough=16, budget_quick=200, budget_thorough=1500),
            dict(pkg="app", test="TestVerifC05AppMuted", shards_quick=8, shards_thorough=16, budget_quick=200, budget_thorough=1500),
